@@ -653,6 +653,61 @@ def clause_h(facts, rep):
     rep.require(n >= 3, 'C13.h: map pointer resets found: %d' % n)
 
 
+ASSIGNING_ALGOS = ('move', 'copy', 'move_backward', 'copy_backward', 'swap_ranges', 'rotate', 'fill', 'fill_n', 'copy_n', 'swap', 'iter_swap')
+
+
+def clause_dead_slots(facts, rep):
+    """slots whose nodes were destroyed in place (explicit destructor call) keep their old header bits: from there on
+    they may only be overwritten raw (memmove / memcpy / Xmemcpy / placement new).  A node assignment - directly or
+    through a std algorithm that assigns (std::move, std::copy, ...) - runs destroy() on its target first and releases
+    the already released blocks a second time.  Checked for every function of the node classes that contains an
+    explicit node destructor call: no assigning call is reachable from it."""
+    n = 0
+    seen = set()
+    for f in facts.functions:
+        if not (f.cls_qn or '').startswith('sonic_json::DNode') and not (f.cls_qn or '').startswith('sonic_json::GenericNode'):
+            continue
+        if not any(a in f.name for a in ('SAlloc', 'SimpleAllocator')):
+            continue
+        dtors = [(bid, i, e) for bid, i, s_, e in f.walk() if e.get('k') == 'call' and (e.get('cname') or '').startswith('~') and 'Node' in (e.get('cname') or '')]
+        if not dtors or f.loc in seen:
+            continue
+        seen.add(f.loc)
+        rep.fn(f)
+        # blocks reachable from a destructor call (the rest of its own block counts)
+        reach = set()
+        work = []
+        after = {}
+        for bid, i, e in dtors:
+            after.setdefault(bid, i if isinstance(i, int) else 10 ** 6)
+            after[bid] = min(after[bid], i if isinstance(i, int) else 10 ** 6)
+            work.extend(x for x in f.blocks[bid]['succs'] if x is not None)
+        while work:
+            x = work.pop()
+            if x in reach:
+                continue
+            reach.add(x)
+            work.extend(y for y in f.blocks[x]['succs'] if y is not None)
+        bad = None
+        for bid, i, s_, e in f.walk():
+            if e.get('k') != 'call':
+                continue
+            later = bid in reach or (bid in after and isinstance(i, int) and i > after[bid])
+            if not later:
+                continue
+            cn = e.get('cname') or ''
+            callee = e.get('callee') or e.get('cdiag') or ''
+            assigning = (cn in ASSIGNING_ALGOS and callee.startswith('std::') and len(e.get('args', [])) >= 2) or \
+                        (cn == 'operator=' and 'Node' in (e.get('ccls') or ''))
+            if assigning and bad is None:
+                bad = (e, cn)
+        n += 1
+        rep.check(bad is None, 'E8.dead-slots', f.qn, 'after the in-place destructor calls (%d) the slots are only overwritten raw' % len(dtors), f.loc,
+                  ('%s at %s assigns onto node slots although some were destroyed in place earlier in the function' % (show(bad[0])[:70], locline(bad[0]['loc']))) if bad else '',
+                  facts.config)
+    rep.require(n >= 2, 'C13: functions with in-place node destructor calls found: %d (>= 2 expected)' % n)
+
+
 def run(rep, tier):
     configs = ['K1'] if tier == 'quick' else ['K1', 'K3']
     for cfg in configs:
@@ -666,6 +721,7 @@ def run(rep, tier):
         clause_f(facts, rep)
         clause_g(facts, rep)
         clause_h(facts, rep)
+        clause_dead_slots(facts, rep)
     rep.trust('clang 14 front end', 'clang -verify for the compile-fail witnesses', 'libc realloc/free')
     rep.assumptions += [
         'decides type-level copy prohibition, raw-move pairing, destroy-before-overwrite with provenance, the arms of destroy() the discipline of owning raw-pointer fields and the completeness of Swap / move transfers of the document buffers (freeing-allocator instantiations)',
